@@ -73,7 +73,7 @@ def digest_arrays(arrs):
 # ----------------------------------------------------------------------------------------
 # uninitialised memory: np.empty / np.empty_like / np.ndarray return poison-filled arrays
 # ----------------------------------------------------------------------------------------
-POISONS = [0x7ff4dead0000beef, 0x7e37e43c8800759c]   # a signalling-NaN pattern, 1e300
+POISONS = [0x7ff4dead0000beef, 0x7e3a5a5a5a5a5a5a]   # a signalling-NaN pattern, a huge finite number (~1.2e300)
 
 
 class PoisonNumpy(object):
